@@ -93,6 +93,8 @@ type gen struct {
 	varAtBlock map[*ssa.BasicBlock]map[string]ssa.Value
 	lastCall map[string]*Val // result of the latest call per callee short name (dominator-correct)
 	lastCallBlock map[*ssa.BasicBlock]map[string]*Val
+	lastArgs      map[string][]*Val // arguments of the latest call per callee short name (dominator-correct)
+	lastArgsBlock map[*ssa.BasicBlock]map[string][]*Val
 	retStates []*retPoint
 	cutPhi map[*ssa.Phi]*Val
 	closures map[int]*closureInfo
